@@ -39,14 +39,14 @@ Qed.
 Lemma ghtlc_component w g rq sel :
   match gclassify w rq with
   | KTramp h t =>
-      get_comp (fst (gstep w g (GHtlc rq) sel)) h = fst (step (w_cfg w) (get_comp g h) (EvHtlc (htlc_of rq t))) /\
-      snd (gstep w g (GHtlc rq) sel) = map (lift_out h) (snd (step (w_cfg w) (get_comp g h) (EvHtlc (htlc_of rq t)))) /\
+      get_comp (fst (gstep w g (GHtlc rq) sel)) h = fst (step_htlc (w_cfg w) (get_comp g h) (htlc_of rq t) sel) /\
+      snd (gstep w g (GHtlc rq) sel) = map (lift_out h) (snd (step_htlc (w_cfg w) (get_comp g h) (htlc_of rq t) sel)) /\
       forall h', h <> h' -> get_comp (fst (gstep w g (GHtlc rq) sel)) h' = get_comp g h'
   | _ => fst (gstep w g (GHtlc rq) sel) = g
   end.
 Proof.
   cbn [gstep]. destruct (gclassify w rq) as [|r|h t| |]; try reflexivity.
-  destruct (step (w_cfg w) (get_comp g h) _) as [s' o] eqn:E. cbn [fst snd].
+  destruct (step_htlc (w_cfg w) (get_comp g h) _ sel) as [s' o] eqn:E. cbn [fst snd].
   split; [apply get_put_same|]. split; [reflexivity|]. intros h' Hne. apply get_put_other. exact Hne.
 Qed.
 
